@@ -707,6 +707,10 @@ class Ctx:
                 if k:
                     self.known_hits.append((k["id"], c))
                     continue
+                # at most a handful of replay files per clause and run (a broken tree can violate a clause in thousands of traces)
+                nsaved = sum(1 for cc, _ in self.viol if cc == c)
+                if nsaved >= 6:
+                    continue
                 path = save_replay(self.prop, c, tr, v)
                 self.viol.append((c, path))
         if len(self.samples) < 3 and traces:
